@@ -1,3 +1,4 @@
+import PoaVerif.Facts
 import PoaVerif.Lemmas.EndBlock
 import PoaVerif.Lemmas.FramePoa
 import PoaVerif.Model.Spec
@@ -13,6 +14,13 @@ import PoaVerif.Witness.Q3
   list); below: what holds for every state.
 -/
 namespace PoaVerif.Props.C13
+
+/-- the slashing glue: admission creates the signing info, removal clears bitmap and info; `SetPOAPower` touches the
+    missed-block bitmap in its removal branch only (see `Props.C14.facts_set_power_calls`) -/
+theorem facts_slashing_glue :
+    Generated.setSlashingInfoCalls = ["GetConsAddr", "UnwrapSDKContext", "SetValidatorSigningInfo", "ConsAddress", "ConsAddress", "BlockHeight", "BlockHeader"] ∧
+    Generated.clearSlashingInfoCalls = ["GetConsAddr", "DeleteMissedBlockBitmap", "ConsAddress", "SetValidatorSigningInfo", "ConsAddress"] ∧
+    (Generated.setPOAPowerCalls.filter (· == "DeleteMissedBlockBitmap")).length = 1 := by decide
 open App
 
 theorem facts_order :
